@@ -213,10 +213,26 @@ def socp_setup(sc):
         fr['solver'] = sc.get('solver')
         fr['primalstart'] = None
         fr['dualstart'] = None
+        if sc.get('starts') and sc.get('q', True):
+            fr['primalstart'] = start_with_list(ex, st, 'primalstart', 'x',
+                                                'sl', 'sq', lens, False)
+            fr['dualstart'] = start_with_list(ex, st, 'dualstart', 'y',
+                                              'zl', 'zq', lens, False)
         fr['kwargs'] = cs.kwargs_dict(ex, st, sc.get('options', False))
         ex.axioms.append(cs.SYM_AXIOM)
         st.ghost['scenario'] = sc
     return setup
+
+
+def start_with_list(ex, st, name, vkey, lkey, listkey, lens, square):
+    items = {vkey: cs.input_matrix(ex, st, "%s['%s']" % (name, vkey),
+                                   ncols=1),
+             lkey: cs.input_matrix(ex, st, "%s['%s']" % (name, lkey),
+                                   ncols=1),
+             listkey: matrix_list(ex, st, "%s['%s']" % (name, listkey), lens,
+                                  'INPUT:%s' % name, square=square)}
+    return ex.alloc(st, 'dict', {'items': items, 'open': False},
+                    {'owner': 'INPUT:' + name, 'name': name})
 
 
 def sdp_setup(sc):
@@ -240,6 +256,7 @@ def sdp_setup(sc):
             fr['hs'] = matrix_list(ex, st, 'hs', {
                 'len': ns, 'fn': lambda k: ms(k)}, 'INPUT:hs', square=True)
             st.ghost['ms'] = (ms, ns)
+            slens = {'len': ns, 'fn': lambda k: ms(k)}
         else:
             fr['Gs'] = None
             fr['hs'] = None
@@ -251,6 +268,11 @@ def sdp_setup(sc):
         fr['solver'] = sc.get('solver')
         fr['primalstart'] = None
         fr['dualstart'] = None
+        if sc.get('starts') and sc.get('s', True):
+            fr['primalstart'] = start_with_list(ex, st, 'primalstart', 'x',
+                                                'sl', 'ss', slens, True)
+            fr['dualstart'] = start_with_list(ex, st, 'dualstart', 'y',
+                                              'zl', 'zs', slens, True)
         fr['kwargs'] = cs.kwargs_dict(ex, st, sc.get('options', False))
         ex.axioms.append(cs.SYM_AXIOM)
         st.ghost['scenario'] = sc
@@ -282,6 +304,7 @@ def qp_setup(sc):
 
 WRAP_SCENARIOS = {
     'defaults': {},
+    'starts': {'starts': True, 'options': True},
     'options': {'options': True},
     'options-noA-sparse': {'options': True, 'A': False, 'sparse': True},
 }
@@ -354,6 +377,20 @@ def wrapper_on_outcomes(fname, callee, prop_ok, split=None):
                     ob('none-pattern', (val is None) == none_exp and val !=
                        'MISSING', "result['%s'] is None exactly when %s "
                        "returned no %s" % (key, callee, src))
+                for key, src in (('sl', 's'), ('zl', 'z')):
+                    v_ = d.get(key)
+                    if key in d and is_matrix(st, v_) and isinstance(
+                            rd.get(src), Ref):
+                        vf = mat(st, v_).f
+                        dims_ = st.ghost.get('callee_args', {}).get('dims')
+                        ml_ = ex.num(st, st.heap[dims_.oid].f['items']['l'])[1]
+                        ok_ = vf.get('slice_src') == rd[src].oid and \
+                            vf.get('slice_lo_t') is not None
+                        ob('block-split', z3.And(vf['slice_lo_t'] == 0,
+                                                 vf['slice_hi_t'] == ml_)
+                           if ok_ else False,
+                           "result['%s'] is the 'l' block (first dims['l'] "
+                           "rows) of the %s returned by conelp" % (key, src))
                 for src in ('s', 'z'):
                     ob('result-fields', src not in d,
                        "the combined vector '%s' is removed from the "
@@ -373,8 +410,7 @@ def wrapper_on_outcomes(fname, callee, prop_ok, split=None):
 
 
 FUNCS = {
-    'lp': {'setup': lp_setup, 'scenarios': dict(WRAP_SCENARIOS, **{
-        'starts': {'starts': True, 'options': True}}),
+    'lp': {'setup': lp_setup, 'scenarios': dict(WRAP_SCENARIOS),
         'on_outcomes': wrapper_on_outcomes('lp', 'conelp', 'C01'),
         'config': {'unroll': 4}},
     'socp': {'setup': socp_setup, 'scenarios': WRAP_SCENARIOS,
@@ -588,3 +624,191 @@ FUNCS_CVXPROG = {
     'gp': {'setup': gp_setup, 'scenarios': WRAP_SCENARIOS,
            'on_outcomes': gp_on_outcomes, 'config': {'unroll': 4}},
 }
+
+
+# ------------------------------------------- splitting of s, z into blocks
+class RangeBlockInv:
+    """invariant for `for k in range(len(X))` loops that advance an offset by
+    X[k] (or its square):   off == off(entry) + sum_{j<k} X[j]   (resp.
+    squares).  Determined from the syntactic shape of the loop body."""
+
+    def __init__(self, s):
+        self.s = s
+        self.kvar = s.target.id if isinstance(s.target, ast.Name) else None
+        self.aliases = {}      # m -> X  for  m = X[k]
+        self.incs = []         # (offset var, list name, 'lin'|'sq')
+        self.listname = None
+        it = s.iter
+        if isinstance(it, ast.Call) and it.args and isinstance(
+                it.args[0], ast.Call) and getattr(it.args[0].func, 'id',
+                                                  None) == 'len' and \
+                isinstance(it.args[0].args[0], ast.Name):
+            self.listname = it.args[0].args[0].id
+        for st_ in ast.walk(ast.Module(body=s.body, type_ignores=[])):
+            if isinstance(st_, ast.Assign) and len(st_.targets) == 1 and \
+                    isinstance(st_.targets[0], ast.Name) and self.is_elem(
+                        st_.value):
+                self.aliases[st_.targets[0].id] = st_.value.value.id
+        for st_ in ast.walk(ast.Module(body=s.body, type_ignores=[])):
+            if isinstance(st_, ast.AugAssign) and isinstance(
+                    st_.op, ast.Add) and isinstance(st_.target, ast.Name):
+                kind = self.classify(st_.value)
+                if kind:
+                    self.incs.append((st_.target.id,) + kind)
+
+    def is_elem(self, v):
+        return (isinstance(v, ast.Subscript) and isinstance(v.value, ast.Name)
+                and isinstance(v.slice, ast.Name) and v.slice.id == self.kvar)
+
+    def base_list(self, v):
+        if self.is_elem(v):
+            return v.value.id
+        if isinstance(v, ast.Name) and v.id in self.aliases:
+            return self.aliases[v.id]
+        return None
+
+    def classify(self, v):
+        b = self.base_list(v)
+        if b:
+            return (b, 'lin')
+        if isinstance(v, ast.BinOp) and isinstance(v.op, ast.Pow) and \
+                isinstance(v.right, ast.Constant) and v.right.value == 2:
+            b = self.base_list(v.left)
+            if b:
+                return (b, 'sq')
+        if isinstance(v, ast.BinOp) and isinstance(v.op, ast.Mult):
+            b1, b2 = self.base_list(v.left), self.base_list(v.right)
+            if b1 and b1 == b2:
+                return (b1, 'sq')
+        return None
+
+    def begin(self, ex, st, fid, it):
+        st.ghost.pop(('rblock_entry', self.s.lineno), None)
+
+    def __call__(self, ex, st, fid, k, it):
+        out = []
+        key = ('rblock_entry', self.s.lineno)
+        ent = st.ghost.get(key)
+        if ent is None:
+            ent = {}
+            for (v, lst, kind) in self.incs:
+                cur = ex.lookup(st, fid, v, self.s)
+                ent[v] = ex.num(st, cur)[1]
+            st.ghost[key] = ent
+        for (v, lst, kind) in self.incs:
+            lref = ex.lookup(st, fid, lst, self.s)
+            if not (isinstance(lref, Ref) and st.heap[lref.oid].kind ==
+                    'list'):
+                continue
+            lo = st.heap[lref.oid]
+            if 'items' in lo.f:
+                continue
+            if lo.f.get('elem', ('x',))[0] != 'fn':
+                continue
+            e = lo.f['elem'][1]
+            from contracts.py.extern_cvxopt import psum_fn, sqsum_fn
+            F = psum_fn(ex, st, lref) if kind == 'lin' else sqsum_fn(
+                ex, st, lref)
+            # definitional step of the prefix function at k
+            step = e(k) if kind == 'lin' else e(k) * e(k)
+            st.pc.append(F(k + 1) == F(k) + step)
+            cur = ex.num(st, ex.lookup(st, fid, v, self.s))[1]
+            out.append(('%s == %s(entry) + sum of the first k %s of %s' % (
+                v, v, 'entries' if kind == 'lin' else 'squares', lst),
+                cur == ent[v] + F(k)))
+        return out
+
+
+_rinv_cache = {}
+_prev_find = L.find_invariant
+
+
+def _find_invariant2(ex, s):
+    f = _prev_find(ex, s)
+    if f is not None:
+        return f
+    if isinstance(s, ast.For) and isinstance(s.iter, ast.Call) and getattr(
+            s.iter.func, 'id', None) == 'range':
+        key = (ex.fname, s.lineno, id(s))
+        if key not in _rinv_cache:
+            inv = RangeBlockInv(s)
+            _rinv_cache[key] = inv if inv.incs else None
+        return _rinv_cache[key]
+    return None
+
+
+L.find_invariant = _find_invariant2
+
+BLOCK_OF = {'sq': ('s', 'q'), 'zq': ('z', 'q'), 'ss': ('s', 's'),
+            'zs': ('z', 's')}
+
+
+def block_copy_hook(ex, st, dest, src_oid, lo, hi, node):
+    """dest[:] = src[lo:hi] where dest is element k of a list stored in the
+    result under 'sq'/'zq'/'ss'/'zs': the slice must be block k of the cone
+    vector returned by conelp"""
+    res = st.ghost.get('callee_result')
+    if res is None or res.oid not in st.heap:
+        return
+    do = st.heap[dest.oid]
+    eo = do.f.get('elem_of')
+    if eo is None:
+        return
+    loid, k = eo
+    rd = st.heap[res.oid].f['items']
+    keyname = None
+    for kk, vv in rd.items():
+        if isinstance(vv, Ref) and vv.oid == loid:
+            keyname = kk
+    if keyname not in BLOCK_OF:
+        return
+    vec, cone = BLOCK_OF[keyname]
+    status = st.ghost.get('callee_status')
+    prop = 'C02' if status in ('primal infeasible', 'dual infeasible') \
+        else 'C01'
+    src_ok = isinstance(rd.get(vec), Ref) and rd[vec].oid == src_oid
+    args = st.ghost.get('callee_args', {})
+    dims = args.get('dims')
+    if not (isinstance(dims, Ref) and st.heap[dims.oid].kind == 'dict'):
+        return
+    dd = st.heap[dims.oid].f['items']
+    from contracts.py.extern_cvxopt import psum_fn, sqsum_fn
+    ml = ex.num(st, dd['l'])[1]
+
+    def total(lref, sq=False):
+        lo_ = st.heap[lref.oid]
+        if 'items' in lo_.f:
+            t = z3.IntVal(0)
+            for x in lo_.f['items']:
+                xv = ex.num(st, x)[1]
+                t = t + (xv * xv if sq else xv)
+            return t, None
+        F = sqsum_fn(ex, st, lref) if sq else psum_fn(ex, st, lref)
+        return F(lo_.f['len'].t), F
+    qtot, qF = total(dd['q'])
+    if cone == 'q':
+        lst = dd['q']
+        F = qF
+        base = ml
+        sq = False
+    else:
+        lst = dd['s']
+        stot, F = total(dd['s'], sq=True)
+        base = ml + qtot
+        sq = True
+    lo_ = st.heap[lst.oid]
+    if F is None or lo_.f.get('elem', ('x',))[0] != 'fn':
+        return
+    e = lo_.f['elem'][1]
+    exp_lo = base + F(k)
+    exp_hi = exp_lo + (e(k) * e(k) if sq else e(k))
+    goal = z3.BoolVal(False)
+    if src_ok and lo is not None and hi is not None:
+        goal = z3.And(lo == exp_lo, hi == exp_hi)
+    ex.oblige(st, 'block-split', goal, node,
+              "result['%s'][k] is block k of the '%s' part of the %s "
+              "returned by conelp (rows [off(k), off(k+1)))" % (
+                  keyname, cone, vec), extra={'prop': prop})
+
+
+L.hooks['block_copy'] = block_copy_hook
